@@ -66,6 +66,8 @@ def gen_cases(rng, tier):
     depth = rng.choice([0, 1, 1, 2, 2, 3] if tier != 'thorough' else [0, 1, 2, 2, 3, 4])
     T = tg.gen_tree(rng, depth, fanout=3 if depth >= 2 else 4, p_subbal=0.5, p_adaptor=0.4, lengths=[1, 2, 3, 3, 4])
     S = tg.gen_matrix(rng, T)
+    if i % 6 == 5:
+      tg.thin_large_sbounds(T, i)      # open bands that are thin relative to their magnitude must stay inequalities
     out.append({'tree': T, 'S': S})
   return out
 
